@@ -730,12 +730,21 @@ func (x *Exec) convert(st *State, v Val, from, to types.Type) (Val, error) {
 	case fk == KFloat && tk == KFloat:
 		return scalar(to, v.One()), nil
 	case fk == KFloat && tk == KInt:
-		u.Trust("float->int conversion treated as truncation of an exact real")
+		u.Trust("float->int conversion treated as truncation of an exact real (then wrapped to the target width)")
 		r := v.One()
-		fl := App("to_int", SInt, r)
-		// truncation toward zero
-		tr := Ite(Ge(r, Term{"0.0", SReal}), fl, App("-", SInt, App("to_int", SInt, App("-", SReal, r))))
-		return scalar(to, u.Define("f2i", tr)), nil
+		ti, _ := intInfoOf(to)
+		var tr Term
+		const pre, suf = "(/ (to_real ", ") 1000000000.0)"
+		if len(r.S) > len(pre)+len(suf) && r.S[:len(pre)] == pre && r.S[len(r.S)-len(suf):] == suf {
+			// Duration.Seconds() converted back to an integer: stay in integer arithmetic
+			xi := Term{r.S[len(pre) : len(r.S)-len(suf)], SInt}
+			k := IntLit(1000000000)
+			tr = Ite(Ge(xi, IntLit(0)), App("div", SInt, xi, k), App("-", SInt, App("div", SInt, App("-", SInt, xi), k)))
+		} else {
+			fl := App("to_int", SInt, r)
+			tr = Ite(Ge(r, Term{"0.0", SReal}), fl, App("-", SInt, App("to_int", SInt, App("-", SReal, r))))
+		}
+		return scalar(to, u.Define("f2i", u.wrap(tr, ti))), nil
 	case fk == tk && (fk == KPtrStruct || fk == KPtrCell || fk == KUnsafe):
 		v.T = to
 		return v, nil
